@@ -12,7 +12,7 @@ from __future__ import annotations
 import ast
 from typing import List, Optional, Tuple
 
-from ..astq import assignments, calls, kwarg, params, stmts
+from ..astq import assignments, calls, kwarg, local_from, local_from_text, params, stmts
 from ..callgraph import fkey
 from ..cfg import cond_atoms, flatten_conj, path_conditions
 from ..report import Check
@@ -109,11 +109,27 @@ def _base_of(f, idx2: str) -> str:
     return idx2
 
 
+def _rd_roles(f):
+    p0 = params(f)[0]
+    work = local_from(f, lambda v: norm(v) == f"{p0}.encode()")
+    safe = local_from(f, lambda v: norm(v) == f"isinstance({p0}, SafeString)")
+    js = css = None
+    for s in stmts(f):
+        if isinstance(s, ast.Assign) and isinstance(s.targets[0], ast.Tuple) and isinstance(s.value, ast.Call) and last_attr(s.value.func) == "_process_dep_declarations" and len(s.targets[0].elts) == 3:
+            js, css = norm(s.targets[0].elts[1]), norm(s.targets[0].elts[2])
+    helper = local_from(f, lambda v: isinstance(v, ast.Call) and last_attr(v.func) == "_insert_js_css_to_default_locations")
+    return {"p0": p0, "work": work, "safe": safe, "js": js, "css": css, "helper": helper}
+
+
 def s3(chk: Check, proj: Project, m) -> None:
     chk.rule("S3", "render_dependencies returns str for str, SafeString for SafeString, bytes for bytes")
     f = m.func("render_dependencies")
     chk.analysed(fkey(m, f))
-    p0 = params(f)[0]
+    R = _rd_roles(f)
+    p0, W, SF = R["p0"], R["work"], R["safe"]
+    if not (W and SF):
+        chk.undecided("S3", "dependencies:render_dependencies:roles", m.loc(f), f"working-bytes / safe-flag variables not identified ({R})")
+        return
     rets = [s for s in stmts(f) if isinstance(s, ast.Return) and s.value is not None]
     if len(rets) != 1:
         chk.undecided("S3", "dependencies:render_dependencies:returns", m.loc(f), f"{len(rets)} return statements")
@@ -124,16 +140,14 @@ def s3(chk: Check, proj: Project, m) -> None:
     outv = norm(rv)
     defs = assignments(f, outv)
     texts = [norm(v) for _s, v in defs if v is not None]
-    safe_flag = [s for s, v in assignments(f, "is_safestring") if v is not None and norm(v) == f"isinstance({p0}, SafeString)"]
-    dec = any(t.endswith(f".decode() if isinstance({p0}, str) else " + t.split(" if ")[0].replace(".decode()", "")) for t in texts) or any(f".decode() if isinstance({p0}, str) else" in t for t in texts)
-    safe = any(t.startswith("mark_safe(") and t.endswith(" if is_safestring else " + outv) for t in texts)
+    dec = any(t == f"{W}.decode() if isinstance({p0}, str) else {W}" for t in texts)
+    safe = any(t == f"mark_safe({outv}) if {SF} else {outv}" for t in texts)
     order_ok = len(defs) == 2 and ".decode()" in texts[0] and "mark_safe" in texts[1]
-    ok = bool(safe_flag) and dec and safe and order_ok
+    ok = dec and safe and order_ok
     chk.ob("S3", "dependencies:render_dependencies:type-round-trip", m.loc(rets[0]), ok,
            "decode iff the input was str, then mark_safe iff it was a SafeString; bytes are returned as bytes" if ok else
            f"the returned value is built as {texts}: the str / SafeString / bytes type of the input is not restored")
-    # encode side
-    enc = [s for s, v in assignments(f, "content_") if v is not None and norm(v) == f"{p0}.encode()"]
+    enc = [s for s, v in assignments(f, W) if v is not None and norm(v) == f"{p0}.encode()"]
     okk = bool(enc) and any(pol and t == f"isinstance({p0}, str)" for t, pol in cond_atoms(enc[0]))
     chk.ob("S3", "dependencies:render_dependencies:encode-iff-str", m.loc(enc[0]) if enc else m.loc(f), okk, "the input is encoded only when it is a str")
 
@@ -141,11 +155,15 @@ def s3(chk: Check, proj: Project, m) -> None:
 def s4(chk: Check, proj: Project, m) -> None:
     chk.rule("S4", "every assignment to the content variables has a reviewed right-hand side (encode/decode, the two substitutions, the insertion helper's result, `+= js` only for fragments); placeholder replacements are the per-mode variables")
     f = m.func("render_dependencies")
-    p0 = params(f)[0]
+    R = _rd_roles(f)
+    p0, W, JS, H = R["p0"], R["work"], R["js"], R["helper"]
+    if not (W and JS and H):
+        chk.undecided("S4", "dependencies:render_dependencies:roles", m.loc(f), f"content / js / helper-result variables not identified ({R})")
+        return
     n = 0
     for st in stmts(f):
         tg = [norm(t) for t, _v in assign_targets(st)]
-        if "content_" not in tg:
+        if W not in tg:
             continue
         n += 1
         v = st.value if isinstance(st, (ast.Assign, ast.AugAssign, ast.AnnAssign)) else None
@@ -153,29 +171,30 @@ def s4(chk: Check, proj: Project, m) -> None:
         atoms = cond_atoms(st)
         key = f"dependencies:render_dependencies:{short(st, 70)}"
         if isinstance(st, ast.AugAssign):
-            ok = isinstance(st.op, ast.Add) and t == "js_dependencies" and any(pol and t2 == "type == 'fragment'" for t2, pol in atoms)
+            ok = isinstance(st.op, ast.Add) and t == JS and any(pol and t2 == "type == 'fragment'" for t2, pol in atoms)
             chk.ob("S4", key, m.loc(st), ok, "the declaration script is appended only for fragments" if ok else f"`{short(st)}` appends to the document outside the fragment case")
         elif t == f"{p0}.encode()" or t == f"cast(bytes, {p0})":
             chk.holds("S4", key, m.loc(st), "type normalisation", nontrivial=False)
-        elif t.startswith("_process_dep_declarations(content_"):
+        elif t.startswith(f"_process_dep_declarations({W}"):
             chk.holds("S4", key, m.loc(st), "marker harvest (substitution by the empty string, C04-S2)", nontrivial=False)
-        elif t.startswith("PLACEHOLDER_REGEX.sub(") and t.endswith(", content_)"):
+        elif t.startswith("PLACEHOLDER_REGEX.sub(") and t.endswith(f", {W})"):
             chk.holds("S4", key, m.loc(st), "placeholder substitution", nontrivial=False)
-        elif t == "maybe_transformed.encode()":
-            ok = any(pol and t2 == "maybe_transformed is not None" for t2, pol in atoms) and any(isinstance(x, ast.Call) and norm(x.func) == "_insert_js_css_to_default_locations" for _s, x in assignments(f, "maybe_transformed") if x is not None)
+        elif t == f"{H}.encode()":
+            ok = any(pol and t2 == f"{H} is not None" for t2, pol in atoms)
             chk.ob("S4", key, m.loc(st), ok, "result of the default-location insertion helper")
         else:
             chk.violated("S4", key, m.loc(st), f"`{short(st)}` transforms the document in a way that is not a marker removal / placeholder substitution / insertion: other bytes of the input can change")
     chk.floor("S4", n, 5)
     # the insertion helper gets the whole decoded content
     ic = calls(f, "_insert_js_css_to_default_locations")
-    ok = bool(ic) and ic[0].args and norm(ic[0].args[0]) == "content_.decode()"
+    ok = bool(ic) and ic[0].args and norm(ic[0].args[0]) == f"{W}.decode()"
     chk.ob("S4", "dependencies:render_dependencies:helper-input", m.loc(ic[0]) if ic else m.loc(f), ok, "the insertion helper receives the whole (decoded) content")
     # replacement variables
     orm = next((x for x in body_walk(f) if isinstance(x, ast.FunctionDef) and x.name == "on_replace_match"), None)
     if orm is None:
         raise AnalysisError("render_dependencies: on_replace_match vanished")
-    for s in [x for x in stmts(orm) if isinstance(x, ast.Assign) and norm(x.targets[0]) == "replacement"]:
+    rname = next((norm(r.value) for r in stmts(orm) if isinstance(r, ast.Return) and isinstance(r.value, ast.Name)), "replacement")
+    for s in [x for x in stmts(orm) if isinstance(x, ast.Assign) and norm(x.targets[0]) == rname]:
         v = norm(s.value)
         d = assignments(f, v)
         ok = len(d) == 1 and isinstance(d[0][1], ast.IfExp) and norm(d[0][1].test) == "type == 'document'" and isinstance(d[0][1].orelse, ast.Constant) and d[0][1].orelse.value == b""
@@ -186,7 +205,7 @@ def s4(chk: Check, proj: Project, m) -> None:
                f"the {kind} placeholder is replaced by `{v}` = tags for documents, b'' for fragments" if ok and right_kind else
                f"`{short(s)}` replaces the placeholder with `{v}`, which is not the per-mode replacement (tags in document mode, nothing in fragment mode): in a fragment the tags are spliced into the body")
     # matched kind is decided on the placeholder name
-    chk.floor("S4-replacements", len([x for x in stmts(orm) if isinstance(x, ast.Assign) and norm(x.targets[0]) == "replacement"]), 2)
+    chk.floor("S4-replacements", len([x for x in stmts(orm) if isinstance(x, ast.Assign) and norm(x.targets[0]) == rname]), 2)
 
 
 def s5(chk: Check, proj: Project, m) -> None:
